@@ -11,6 +11,9 @@
 (*   "g":b}                                   guard bytes around the second object intact             *)
 (* For the FixedString overloads (sk in FsKinds) src is the content of the second object after the    *)
 (* driver assigned the wanted source to it, i.e. the argument the call really received.               *)
+(* For the self-aliasing kinds (sk in SelfKinds: the object itself, c_str() + p2) src is what the      *)
+(* reference / pointer designated immediately before the call; it must equal the (stated part of the)  *)
+(* content of the previous event (SrcOK) - in both modes.                                              *)
 (* Functional = TRUE  (C11): a call inside the documented domain must produce exactly the specified   *)
 (*                    content and result; calls outside it only have to keep the objects well-formed. *)
 (* Functional = FALSE (C10): every call only has to keep the objects well-formed (length <= L, NUL at  *)
@@ -31,6 +34,7 @@ TInit == l = 1 /\ L = 0 /\ s = <<>> /\ o = <<>> /\ wf = TRUE
 TNext == /\ l <= Len(Log) /\ l' = l + 1
          /\ \/ /\ Ev.e = "Op"
                /\ wf' = SensorsOK
+               /\ SrcOK(s, Ev)              \* self-aliasing sources: the logged src is the (stated part of the) content before the call
                /\ IF Functional /\ Dom(s, o, Ev)
                   THEN /\ Call(Ev)
                        /\ s' = Ev.s /\ o' = Ev.o
